@@ -122,6 +122,18 @@ def above (chain : List Pt) (p : Pt) : Bool := sideAny chain p .ccw
 def onChain (chain : List Pt) (p : Pt) : Bool := sideAny chain p .col
 def below (chain : List Pt) (p : Pt) : Bool := sideAny chain p .cw
 
+/-- at `p` the chains are ordered (the documented precondition "the top chain is above the bottom
+chain"): what lies above the top chain lies above the bottom chain, and what lies below the bottom
+chain lies below the top chain. -/
+def orderedAt (m : MonoPoly) (p : Pt) : Bool :=
+  (!above m.top p || above m.bot p) && (!below m.bot p || below m.top p)
+
+/-- `self.bounds.intersects(coord)` -/
+def inBounds (m : MonoPoly) (p : Pt) : Bool :=
+  match getBoundingRect (m.top ++ m.bot) with
+  | none => false
+  | some (mn, mx) => rectCoord mn mx p
+
 /-- between-the-chains classification of a coordinate -/
 def specPos (m : MonoPoly) (p : Pt) : Pos :=
   if onChain m.top p || onChain m.bot p then .onBoundary
